@@ -1589,6 +1589,22 @@ def expand_adaptors(body, depth=3):
             arms = None
             kind = None
             clo_idx = None
+            if re.search(r"Result::<T, E>::(ok|err)$", name) and aty.startswith(RES):
+                # Result<T, E> -> Option<T> (ok) / Option<E> (err): a two-arm match without a closure
+                which = name.rsplit("::", 1)[1]
+                dl = new_local("isize")
+                b_ok, b_err, b_unr = len(blocks), len(blocks) + 1, len(blocks) + 2
+                dest, target = t["dest"], t["target"]
+                blocks[bi]["stmts"].append(assign({"l": dl, "p": []}, {"k": "discr", "place": {"l": recv["l"], "p": []}, "of": aty}))
+                blocks[bi]["term"] = {"k": "switch", "discr": {"move": {"l": dl, "p": []}}, "dty": "isize", "targets": [["0", b_ok], ["1", b_err]], "otherwise": b_unr, "line": line, "exp": False}
+                some_ok = assign(dest, _agg(OPT, 1, "Some", [payload(0, "Ok")]))
+                some_err = assign(dest, _agg(OPT, 1, "Some", [payload(1, "Err")]))
+                none = assign(dest, _agg(OPT, 0, "None", []))
+                blocks.append({"stmts": [some_ok if which == "ok" else none], "term": {"k": "goto", "target": target, "line": line}, "cleanup": False})
+                blocks.append({"stmts": [none if which == "ok" else some_err], "term": {"k": "goto", "target": target, "line": line}, "cleanup": False})
+                blocks.append({"stmts": [], "term": {"k": "unreachable", "line": line}, "cleanup": False})
+                did = True
+                break
             if name.endswith("::transpose") and aty.startswith(OPT):
                 # Option<Result<T, E>> -> Result<Option<T>, E>
                 kind = "transpose_opt"
